@@ -148,7 +148,7 @@ def run_case(case):
     obs = {'counted_persister': int(bool(case.get('counted'))), 'tasks': {}, 'rejected': 0, 'persisted_checks': 0, 'nowait_replies': 0, 'wait_replies': 0, 'error_replies': 0, 'route': {case['route']: 1},
            'persister': {case['persister']: 1}, 'loader': {case['loader']: 1}, 'continued_from_tag': 0, 'traces_checked': 0, 'custom_loads': 0, 'bogus_names': {}}
     viol = []
-    workdir = tempfile.mkdtemp(prefix='c17-', dir=os.environ.get('PV_WORK') or None)
+    workdir = tempfile.mkdtemp(prefix='c17-[a]?-', dir=os.environ.get('PV_WORK') or None)
     loaders.set_object_loader(None)
     c19.CountingLoader.loads = 0
     label = '%s/%s/%s' % (case['persister'], case['loader'], case['route'])
